@@ -10,7 +10,7 @@ import itertools
 
 from hypothesis import strategies as st
 
-from vlib import refash, vloop
+from vlib import cfg, refash, vloop
 from vlib.ashh import FakeTransport, Upper
 from vlib.line import Line
 from vlib.run import HarnessError, Result
@@ -309,7 +309,8 @@ def targeted_plans(draw):
             ops.append(["c", i, round(t + draw(st.sampled_from([0.0, 0.0005, 0.001, 0.0041, 0.1, 1.0, 1.6, 1.601, 2.0])), 4)])
         if draw(st.integers(0, 2)) == 0:
             ops.append(["n", round(t + 0.0007, 4), draw(st.integers(0, 6))])
-    fates = draw(st.lists(st.tuples(st.integers(1, 5), st.sampled_from([["x"], ["c", 11], ["s", 3.5], ["2"]])), max_size=4, unique_by=lambda x: x[0]))
+    A = cfg.ash_attempts()  # at most A - 1 of the payload's A transmissions are hit: the last one gets through
+    fates = draw(st.lists(st.tuples(st.integers(1, A), st.sampled_from([["x"], ["c", 11], ["s", 3.5], ["2"]])), max_size=A - 1, unique_by=lambda x: x[0]))
     ft = [{"tag": hpayload(ci, 0)[:2].hex(), "fates": [{"k": k, "fate": f} for k, f in fates]}]
     return {"K": K, "ops": ops, "ft": ft}
 
